@@ -259,6 +259,12 @@ func (w *pricedCallWorkload) Next(block int) []rig.Tx {
 	if uint64(sp.MaxRequestTimeout) < qos {
 		qos = uint64(sp.MaxRequestTimeout)
 	}
+	if sp.RestrictedServiceFeeDenom && block%5 == 0 {
+		// another workload restricted service fees to the base denomination: nothing priced in tka can be bound or
+		// re-priced while that lasts; the authority lifts the restriction again after a few blocks
+		sp.RestrictedServiceFeeDenom = false
+		out = append(out, r.InjectRoute(r.Acc(4), &pcTag{Kind: "lift-fee-denom-restriction"}, &servicetypes.MsgUpdateParams{Authority: r.GovAddr.String(), Params: sp}))
+	}
 	{
 		if w.nextP >= len(r.Accounts) {
 			w.nextP = 4
